@@ -10,8 +10,28 @@ WORDS = ["fix", "add", "update", "refactor: split", "feat(api): new", "docs", "b
          "done: 100%", "merge", "tmp", "[WIP] start", "fix: #12 crash", "chore(deps): up", "éclair", "x"]
 ADVERSARIAL_SUBJECTS = ["revert [abcde12] again", "by Ann Lee 2020-01-01 confirmed", "released 2020-02-02 build", "cafe [deadbeef]", "double  space",
                         "tab\tinside", "[12345] only", "fix: date 2020-03-04"]
-DIRS = ["", "src/", "src/main/", "docs/", "a b/", "domain/", "core/domain/x/"]
-NAMES = ["f.txt", "g.go", "Main.java", "read me.md", "x.bin", "h.txt", "k.py"]
+DIRS = ["", "src/", "src/main/", "docs/", "a b/", "domain/", "core/domain/x/", "ünï/"]
+# (names git prints C-quoted: non-ASCII bytes under its default core.quotepath, a double quote always)
+NAMES = ["f.txt", "g.go", "Main.java", "read me.md", "x.bin", "h.txt", "k.py", "说明.md", "café.txt", 'q"uote.txt']
+
+
+def cq(p, quotepath=True):
+    """git's quote_c_style: a path with a control character, a double quote or a backslash - and, unless core.quotepath is off,
+    with a byte above 0x7f - is printed in double quotes with C escapes (octal for the bytes)"""
+    b = p.encode("utf-8")
+    esc = {0x07: "a", 0x08: "b", 0x09: "t", 0x0a: "n", 0x0b: "v", 0x0c: "f", 0x0d: "r", 0x22: '"', 0x5c: "\\"}
+    if not any(c < 0x20 or c == 0x7f or c in (0x22, 0x5c) or (quotepath and c >= 0x80) for c in b):
+        return p
+    out = bytearray(b'"')
+    for c in b:
+        if c in esc:
+            out += b"\\" + esc[c].encode()
+        elif c < 0x20 or c == 0x7f or (quotepath and c >= 0x80):
+            out += ("\\%03o" % c).encode()
+        else:
+            out.append(c)
+    out += b'"'
+    return out.decode("utf-8")
 
 
 def hexrev(rng):
@@ -102,11 +122,13 @@ def render_synthetic(rng, hist, quoted=False):
     files = {}
     out = []
     exp = []
+    qp = rng.random() < 0.6      # core.quotepath as it is by default / switched off
     for c in hist:
         rev = hexrev(rng)
         numstat, summary, changes = [], [], []
         for o in c["Ops"]:
-            p = o["Path"]
+            raw = o["Path"]
+            p = cq(raw, qp)       # the spelling git prints, in the numstat line and in the summary line alike
             if o["Op"] == "write":
                 nl = o["Content"].count("\n")
                 if p in files:
@@ -131,8 +153,9 @@ def render_synthetic(rng, hist, quoted=False):
                 changes.append({"Added": 0, "Deleted": files[p], "File": p, "Mode": "delete"})
                 del files[p]
             elif o["Op"] == "mv":
-                to = o["To"]
-                arrow = git_arrow(p, to)
+                to = cq(o["To"], qp)
+                # (when one of the names is quoted git prints both in full, without the brace notation)
+                arrow = git_arrow(p, to) if (p == raw and to == o["To"]) else "%s => %s" % (p, to)
                 numstat.append("0\t0\t%s" % arrow)
                 summary.append(" rename %s (100%%)" % arrow)
                 changes.append({"Added": 0, "Deleted": 0, "File": arrow, "Mode": ""})
@@ -280,6 +303,8 @@ def gen_c14(rng, tier):
             sh.append({"op": "parse", "text": text, "expected": exp})
         for _ in range(nrepo):
             sh.append({"op": "gitrepo", "history": rand_history(rng, adversarial=rng.random() < 0.2, n=rng.choice([1, 3, 6, 8]), real=True)})
+            if rng.random() < 0.5:
+                sh[-1]["quotepath"] = True      # git's default: non-ASCII paths are printed C-quoted ("docs/\350\257...")
             if rng.random() < 0.3:
                 sh[-1]["cli"] = True     # parsed by the real `coca git` run in that repository (coca_reporter/commits.json)
         # a few raw malformed texts (no expectation: only model == implementation and no crash)
